@@ -55,6 +55,13 @@ type Frame struct {
 	vacDone  map[int]bool
 	loops    []*loopCtx
 	callResults map[string]Val
+	loopFrames map[*ssa.BasicBlock]*loopFrame
+}
+
+type loopFrame struct {
+	allowed map[string][]modLoc
+	top     T
+	head    *State
 }
 
 const maxInlineDepth = 6
@@ -532,7 +539,56 @@ func (s *Session) enterBlock(fr *Frame, b *ssa.BasicBlock) *State {
 		}
 		sort.Strings(names)
 		topEntry := st.Top
+		// user-declared loop frame: `loop N modifies items` (checked at every back edge)
+		var lm map[string][]modLoc
+		if fr.top && fr.contract != nil && len(fr.contract.LoopMod[ord]) > 0 {
+			lm = map[string][]modLoc{}
+			se := &SpecEnv{sess: s, pkg: fr.fn.Pkg.Pkg, vars: s.frameEnv(fr), st: st, old: fr.old, fr: fr}
+			se.lookup = s.localLookup(fr, st, b)
+			for _, it := range fr.contract.LoopMod[ord] {
+				locs, err := s.itemLocs(se, it)
+				if err != nil {
+					panic(fmt.Sprintf("%s: loop %d modifies %q: %v", fr.fn.String(), ord, it, err))
+				}
+				for _, l := range locs {
+					lm[l.heap] = append(lm[l.heap], l)
+				}
+			}
+			if fr.loopFrames == nil {
+				fr.loopFrames = map[*ssa.BasicBlock]*loopFrame{}
+			}
+			fr.loopFrames[b] = &loopFrame{allowed: lm, top: topEntry}
+		}
 		for _, n := range names {
+			if lm != nil {
+				sortN := mods[n]
+				if sortN == "?" {
+					var ok bool
+					if sortN, ok = st.Sorts[n]; !ok {
+						continue
+					}
+				}
+				before := s.heapGet(st, n, sortN)
+				whole := false
+				for _, l := range lm[n] {
+					if l.whole {
+						whole = true
+					}
+				}
+				s.havocHeap(st, n, sortN)
+				if !whole {
+					after := st.Heap[n]
+					s.nfresh++
+					r := fmt.Sprintf("r!%d", s.nfresh)
+					excl := ""
+					for _, l := range lm[n] {
+						excl += fmt.Sprintf(" (not (= %s %s))", r, l.ref.S)
+					}
+					ax := fmt.Sprintf("(forall ((%s Int)) (! (=> (and (<= %s %s)%s) (= (select %s %s) (select %s %s))) :pattern ((select %s %s))))", r, r, topEntry.S, excl, after.S, r, before.S, r, after.S, r)
+					s.assume(T{ax, SBool})
+				}
+				continue
+			}
 			sortN := mods[n]
 			if sortN == "?" {
 				var ok bool
@@ -559,6 +615,9 @@ func (s *Session) enterBlock(fr *Frame, b *ssa.BasicBlock) *State {
 			st.Top = s.fresh("top", SInt)
 			s.assume(Ge(st.Top, topEntry))
 		}
+	}
+	if lf := fr.loopFrames[b]; lf != nil {
+		lf.head = st.clone()
 	}
 	for _, ph := range phis {
 		hv := s.opaqueVal(ph.Type(), "loop_"+ph.Comment)
@@ -681,6 +740,9 @@ func (s *Session) setEdge(fr *Frame, from, to *ssa.BasicBlock, cond T, st *State
 	if isBackEdge(from, to) {
 		// inv:step obligations
 		ord := fr.loopOrd[to]
+		if lf := fr.loopFrames[to]; lf != nil && lf.head != nil {
+			s.loopFrameObligations(fr, lf, st, cond, ord)
+		}
 		if fr.contract != nil && fr.top {
 			invs := fr.contract.Loops[ord]
 			if len(invs) > 0 {
@@ -1687,3 +1749,42 @@ func (s *Session) next(fr *Frame, x *ssa.Next, st *State) {
 }
 
 var _ = strings.Contains
+
+// loopFrameObligations: with a declared `loop N modifies`, every heap family may differ from its value at the
+// loop head only at the declared locations (objects allocated during the iteration are exempt).
+func (s *Session) loopFrameObligations(fr *Frame, lf *loopFrame, st *State, cond T, ord int) {
+	names := make([]string, 0, len(st.Heap))
+	for n := range st.Heap {
+		names = append(names, n)
+	}
+	sort.Strings(names)
+	for _, n := range names {
+		if strings.HasPrefix(n, "X:") || strings.HasPrefix(n, "G:") {
+			continue
+		}
+		cur := st.Heap[n]
+		init, ok := lf.head.Heap[n]
+		if !ok {
+			init = s.heapGet(lf.head, n, st.Sorts[n])
+		}
+		if cur.S == init.S {
+			continue
+		}
+		whole := false
+		for _, l := range lf.allowed[n] {
+			if l.whole {
+				whole = true
+			}
+		}
+		if whole {
+			continue
+		}
+		r := s.fresh("lfr", SInt)
+		conds := []T{Ge(r, I(1)), Le(r, lf.top)}
+		for _, l := range lf.allowed[n] {
+			conds = append(conds, Not(Eq(r, l.ref)))
+		}
+		s.addObl(&Obligation{Name: fmt.Sprintf("%s/loopframe#%d.%s", fr.oblPfx, ord, frameLabel(n)), Kind: "frame", Func: fr.oblPfx,
+			Src: fmt.Sprintf("loop %d modifies only the declared locations: heap %s", ord, n), Guard: cond, Formula: Imp(And(conds...), Eq(Select(cur, r), Select(init, r)))})
+	}
+}
